@@ -304,7 +304,14 @@ func (p *textProgressBar) showProgress() {
 
 	percentage := "100%"
 	if p.fileSize != 0 {
-		percentage = fmt.Sprintf("%.0f%%", math.Round(float64(p.fileStep)*100.0/float64(p.fileSize)))
+		// the step comes from the peer, keep the percentage within 0 ~ 100
+		percent := math.Round(float64(p.fileStep) * 100.0 / float64(p.fileSize))
+		if percent > 100 {
+			percent = 100
+		} else if percent < 0 {
+			percent = 0
+		}
+		percentage = fmt.Sprintf("%.0f%%", percent)
 	}
 	total := convertSizeToString(float64(p.fileStep))
 	speed := p.recentSpeed.getSpeed(p.fileStep, &now)
@@ -408,6 +415,12 @@ func (p *textProgressBar) getProgressBar(length int) string {
 	fullSize := totalSize
 	if p.fileSize != 0 {
 		fullSize = int(math.Round((float64(totalSize) * float64(p.fileStep)) / float64(p.fileSize)))
+		// the step comes from the peer, keep the bar within its cells
+		if fullSize > totalSize {
+			fullSize = totalSize
+		} else if fullSize < 0 {
+			fullSize = 0
+		}
 	}
 	emptySize := totalSize - fullSize
 	if p.colorA == nil || p.colorB == nil {
